@@ -206,7 +206,13 @@ impl Lzma2Decoder {
         let mut taken = input.take(packed_size);
         let mut rangecoder = rangecoder::RangeDecoder::new(&mut taken)
             .map_err(|e| error::Error::LzmaError(format!("LZMA input too short: {}", e)))?;
-        self.lzma_state.process(accum, &mut rangecoder)
+        self.lzma_state.process(accum, &mut rangecoder)?;
+        if !rangecoder.is_finished_ok()? {
+            return Err(error::Error::LzmaError(String::from(
+                "LZMA2 chunk holds more compressed data than its declared unpacked size accounts for",
+            )));
+        }
+        Ok(())
     }
 
     fn parse_uncompressed<R, W>(
